@@ -2652,6 +2652,15 @@ func (s *Server) serveConnCounted(c net.Conn, countConcurrency bool) error {
 		hijackNoResponse = ctx.hijackNoResponse && hijackHandler != nil
 		ctx.hijackNoResponse = false
 
+		if rs, ok := ctx.Request.bodyStream.(*requestStream); ok && hijackHandler == nil {
+			// Discard the part of the request body the handler didn't read,
+			// so it isn't parsed as the next request. Close the connection
+			// if the body is too big or cannot be read to its end.
+			if _, errDiscard := io.CopyN(io.Discard, rs, int64(maxRequestBodySize)+1); errDiscard != io.EOF {
+				connectionClose = true
+			}
+		}
+
 		if writeTimeout > 0 {
 			if err = c.SetWriteDeadline(time.Now().Add(writeTimeout)); err != nil {
 				break
